@@ -192,6 +192,22 @@ def handled_consts(f, ctx=None):
             if isinstance(n, ast.Attribute) and isinstance(n.ctx, ast.Load) and n.attr in tables \
                     and isinstance(n.value, ast.Name):
                 out |= tables[n.attr]
+    # a dispatch dict built inside the function: `by_type = {'defense': h1, 'exist': h2}` ... `by_type.get(x['type'], d)`
+    for g in funcs:
+        local = {}
+        for n in ast.walk(g.node):
+            if isinstance(n, ast.Assign) and len(n.targets) == 1 and isinstance(n.targets[0], ast.Name) \
+                    and isinstance(n.value, ast.Dict) and n.value.keys \
+                    and all(isinstance(k, ast.Constant) and isinstance(k.value, str) for k in n.value.keys):
+                local[n.targets[0].id] = {k.value for k in n.value.keys}
+        for n in ast.walk(g.node):
+            if isinstance(n, ast.Subscript) and isinstance(n.value, ast.Name) and n.value.id in local \
+                    and isinstance(n.ctx, ast.Load) and 'type' in stmt_text(n.slice):
+                out |= local[n.value.id]
+            if isinstance(n, ast.Call) and isinstance(n.func, ast.Attribute) and n.func.attr == 'get' \
+                    and isinstance(n.func.value, ast.Name) and n.func.value.id in local and n.args \
+                    and 'type' in stmt_text(n.args[0]):
+                out |= local[n.func.value.id]
     for n in [x for g in funcs for x in (own_nodes(g.node) if g is f else ast.walk(g.node))]:
         if isinstance(n, ast.Match):
             for c in n.cases:
